@@ -57,7 +57,14 @@ def main(tier, replay=None):
                 f.write("\n".join(extra) + "\n" + body)
 
     def run_both(cases_path, tag):
-        i = c.run_sharded([hbin, "run"], cases_path, os.path.join(rd, "impl%s.out" % tag))
+        try:
+            i = c.run_sharded([hbin, "run"], cases_path, os.path.join(rd, "impl%s.out" % tag))
+        except RuntimeError as e:
+            # the process running the real code died (abort, stack overflow, double panic): that is
+            # itself a failure of "never a panic"; no single input is pinned down
+            c.violation("reader-abort", "the harness process running the real TLV code on the generated cases died "
+                        "(abort / stack overflow / panic outside catch_unwind):\n%s" % str(e)[-3000:], no_input=True)
+            c.finish_early()
         m = c.run_sharded([driver, "<"], cases_path, os.path.join(rd, "model%s.out" % tag))
         return read_keyed(i), read_keyed(m)
 
@@ -92,6 +99,7 @@ def main(tier, replay=None):
     # --- monitor: the extracted executable property on the implementation's outputs
     spec_in = os.path.join(rd, "spec.in")
     n_mon = 0
+    writer_bad = []
     with open(spec_in, "w") as f:
         for key, cl in case_by_key.items():
             il = impl.get(key)
@@ -102,6 +110,9 @@ def main(tier, replay=None):
                 f.write(cl + " " + out + "\n")
                 n_mon += 1
             elif key[0] in "TW":
+                if out in ("P", "E") or "!=" in out:
+                    writer_bad.append(key)
+                    continue
                 f.write(cl + " | " + out + "\n")
                 n_mon += 1
     spec_out = c.run_sharded([driver, "<"], spec_in, os.path.join(rd, "spec.out"), argv_suffix=["spec"])
@@ -140,6 +151,18 @@ def main(tier, replay=None):
                 "bytes written by the implementation (TLVWrite / TLV::bytes_iter): " + il,
                 "bytes the model writes                                          : " + str(model.get(key)),
                 "replay: bin/check C16 quick --replay <this file>"]))
+
+    for key in sorted(writer_bad, key=size_of)[:3]:
+        il = impl.get(key, "")
+        mon_viol += 1
+        what = ("the writer panicked" if il.endswith(" P") else "the writer returned an error for a value it must encode"
+                if il.endswith(" E") else "TLVWrite and TLV::bytes_iter encode the same value differently (at most one decodes back to it)")
+        c.violation("writer-paths", "\n".join([
+            "property C16 fails on the implementation (writer): " + what,
+            "case: " + case_by_key[key][:3000],
+            "implementation (bytes by TLVWrite != iter: bytes by TLV::bytes_iter): " + il[:3000],
+            "bytes the model writes: " + str(model.get(key))[:3000],
+            "replay: bin/check C16 quick --replay <this file>"]))
 
     # sweep blocks with panics for which no single input was pinned down (cannot happen unless the
     # expansion above was cut short)
